@@ -82,6 +82,13 @@ def graph_signature(R, entry, all_columns):
 
 def do_call(R, c):
     fn = c["fn"]
+    if fn == "env":
+        # process-wide settings a library call has no business changing
+        import decimal, gc, locale, threading, warnings
+        return {"ok": {"recursionlimit": sys.getrecursionlimit(), "switchinterval": sys.getswitchinterval(),
+                       "warning_filters": len(warnings.filters), "decimal_prec": decimal.getcontext().prec,
+                       "locale": str(locale.getlocale()), "gc": gc.isenabled(), "trace": sys.gettrace() is None and sys.getprofile() is None,
+                       "threads": threading.active_count(), "cwd": os.getcwd(), "int_max_str_digits": getattr(sys, "get_int_max_str_digits", lambda: 0)()}}
     if fn == "graphsig":
         return {"ok": graph_signature(R, c["entry"], c.get("all_columns"))}
     if fn == "format":
